@@ -48,9 +48,9 @@ type Program struct {
 
 	AllFuncs     map[*ssa.Function]bool // every function with a body in module packages (incl. anonymous)
 	globalNonNil map[*ssa.Global]int
-	funcAlias  map[*ssa.Function]string // renamed function -> its reference name
-	aliasByOld map[string]*ssa.Function
-	fieldAlias map[string]string // "pkg.Struct.newName" -> reference field name
+	funcAlias    map[*ssa.Function]string // renamed function -> its reference name
+	aliasByOld   map[string]*ssa.Function
+	fieldAlias   map[string]string // "pkg.Struct.newName" -> reference field name
 
 	chaG *callgraph.Graph
 	vtaG *callgraph.Graph
